@@ -35,6 +35,7 @@ CONSTANTS MaxN,                          \* rows 2..MaxN
 ThrSmall == {<<1, 2>>, <<1, 1>>}
 ThrMid   == {<<1, 2>>, <<3701, 10000>>, <<1, 1>>}
 ThrAll   == {<<1, 4>>, <<3701, 10000>>, <<1, 2>>, <<1, 1>>}
+ThrLow   == {<<1, 4>>, <<1, 2>>}
 BothB == BOOLEAN
 OnlyTrue == {TRUE}
 OnlyFalse == {FALSE}
